@@ -71,7 +71,7 @@ let parse_event (e : string) : sevent =
   match k with
   | 'A' -> EvAccept (rest <> "f")
   | 'H' -> EvHandshake (id, errc_of arg)
-  | 'R' -> EvRead (id, str_of_hex arg)
+  | 'R' -> EvRead (id, str_of_hex (if String.length arg > 0 && arg.[String.length arg - 1] = '+' then String.sub arg 0 (String.length arg - 1) else arg))   (* '+': the harness makes the next bytes available early; the same history for the model *)
   | 'E' -> EvReadErr (id, errc_of arg)
   | 'W' -> EvWriteDone id
   | 'w' -> EvWriteErr (id, errc_of arg)
